@@ -894,6 +894,36 @@ func FSCleanKey(tok string) bool {
 	return true
 }
 
+// PQOut is the parsed answer of a `pq` op.
+type PQOut struct {
+	Cap     int
+	Parked  bool
+	Reflag  string
+	Arrived []string // record tokens in order of arrival
+	Err     string
+}
+
+// ParsePQ parses `ok cap=<c> parked=<0|1> reflag=<r> n=<n> <tok>… err=<e>`.
+func ParsePQ(out string) (PQOut, bool) {
+	pf := strings.Fields(out)
+	var r PQOut
+	n := -1
+	if len(pf) < 6 || pf[0] != "ok" {
+		return r, false
+	}
+	r.Cap = -1
+	fmt.Sscanf(pf[1], "cap=%d", &r.Cap)
+	fmt.Sscanf(pf[4], "n=%d", &n)
+	if r.Cap < 0 || n < 0 || len(pf) != 6+n || !strings.HasPrefix(pf[len(pf)-1], "err=") || !strings.HasPrefix(pf[3], "reflag=") {
+		return r, false
+	}
+	r.Parked = pf[2] == "parked=1"
+	r.Reflag = strings.TrimPrefix(pf[3], "reflag=")
+	r.Arrived = pf[5 : 5+n]
+	r.Err = strings.TrimPrefix(pf[len(pf)-1], "err=")
+	return r, true
+}
+
 // ParseListOut parses `ok <n> <tok>… [err=…]`.
 func ParseListOut(out string) (n int, toks []string, tail string, ok bool) { return parseListOut(out) }
 
